@@ -39,7 +39,7 @@ def discharge_one(args):
     rec = {"name": ob.name, "kind": ob.kind, "trace": ob.trace[-8:], "clause": ob.clause, "qual": q, "size": len(ob.pc)}
     if ent is not None and ent.get("witness") and ob.ctx is not None:
         st, env, site_env = ob.ctx
-        if ent.get("at") == "site" or ob.kind in ("site", "excpost"):
+        if ent.get("at") == "site" or ob.kind in ("site", "excpost", "raises"):
             # witness over the state in which the obligation is stated (site / exit), old(...) = function entry
             wenv = dict(env); wenv.update({"caller_" + k_: v for k_, v in st.env.items()}); wenv.update(site_env or {})
             try:
